@@ -32,7 +32,8 @@ PROFILE_T = gen.Profile("schedules", weights=W, max_steps=11, max_rows=16, n_tab
 
 def systematic(tier):
     cs = templates.c01_cases(tier)
-    return cs if tier == "thorough" else cs[::3]
+    # every case is executed under several schedules with the mutation monitor: sub-sampled in both tiers
+    return cs[::2] if tier == "thorough" else cs[::3]
 
 
 def strategy(tier):
